@@ -470,6 +470,42 @@ def check_graph(ctx, A, directed, tag):
                               "differs from the random-walk definition",
                               dict(key, got=got.tolist(),
                                    want=want_nb.tolist()), {})
+        # several components: random-walk betweenness is defined component
+        # by component (each analysed as a network of its own; the reference
+        # for connected networks is the check above)
+        if not directed and not conn and n >= 3:
+            U = A > 0
+            comp, seen = [], set()
+            for r in range(n):
+                if r in seen:
+                    continue
+                cur, stack = {r}, [r]
+                while stack:
+                    u = stack.pop()
+                    for v in range(n):
+                        if U[u, v] and v not in cur:
+                            cur.add(v)
+                            stack.append(v)
+                seen |= cur
+                comp.append(sorted(cur))
+            want_nb = np.zeros(n)
+            for c in comp:
+                if len(c) >= 2:
+                    sub = Network(adjacency=A[np.ix_(c, c)], silence_level=3)
+                    want_nb[c] = np.asarray(sub.newman_betweenness(), float)
+            try:
+                got = np.asarray(net.newman_betweenness(), float)
+                if not same(got, want_nb, 1e-6):
+                    ctx.violation("Network.newman_betweenness",
+                                  "differs from the betweenness of each "
+                                  "component analysed on its own",
+                                  dict(key, got=got.tolist(),
+                                       want=want_nb.tolist(),
+                                       components=comp), {"connected": False})
+            except Exception as e:
+                ctx.violation("Network.newman_betweenness", "raises",
+                              dict(key, err=f"{type(e).__name__}: {e}"),
+                              {"kind": "exception", "connected": False})
     ctx.sample({"n": n, "directed": directed, "kind": tag})
 
 
